@@ -7,6 +7,11 @@ tie_scalar(ctx)    : Coq model PV.NOF.SolveScalar.solve_scalar vs pymablock.seco
 oracle_scalar(ctx) : implementation only: residual  H_ii X - X H_jj - Y  (for diagonal=True: minus the part of Y
                      the code does not solve, its zero-shift term) evaluated exactly on Fock basis states with the
                      independent actions of oracles/o_nof_matrix.
+Both also run MATRIX-valued cases through the real `solve_sylvester_2nd_quant(eigs)(Y, index)` (2x2 / 3x3
+blocks, diagonal and off-diagonal block indices, distinct and IDENTICAL operator-valued levels inside a block,
+non-Hermitian matrix elements): every entry is compared with the model's `solve_entry` (which fixes which
+entries may use the Hermitian half-computation) and its residual H_A[i] X_ij - X_ij H_B[j] = Y_ij is checked
+on Fock states.
 """
 
 import multiprocessing
@@ -15,7 +20,7 @@ from fractions import Fraction as Fr
 from vlib import core
 from harness import nof_common as nc
 
-from pymablock.second_quantization import solve_scalar  # noqa: E402  (nof_common put core.REPO on sys.path)
+from pymablock.second_quantization import solve_scalar, solve_sylvester_2nd_quant  # noqa: E402  (nof_common put core.REPO on sys.path)
 
 sympy = nc.sympy
 
@@ -125,23 +130,50 @@ def tie_scalar(ctx, ncases=None):
         obs = {tuple(k): [None if v is None else tuple(v) for v in vals] for k, vals in r["obs"]}
         terms.append(coq_case(c, obs))
         kept.append((c, r))
+    # matrix-valued right-hand sides through solve_sylvester_2nd_quant
+    mcases = matrix_cases(ctx.rng, ctx.n(30, 500))
+    with multiprocessing.Pool(8 if ctx.quick else 16) as pool:
+        mres = pool.map(_matrix_worker, mcases, chunksize=1)
+    mkept = []
+    nscalar = len(terms)
+    for c, r in zip(mcases, mres):
+        if not r["ok"]:
+            disagreements.append(dict(what="solve_sylvester_2nd_quant raised: " + matrix_str(c), input=dict(kind="matrix", case=c), impl=r["err"], model="Ok"))
+            continue
+        for ij, t in matrix_terms(c, r):
+            terms.append(t)
+            mkept.append((c, ij, r))
     bad = core.coq_eval_cases("k_scalar", COQ_HEADER, terms, shard=max(10, len(terms) // 8 + 1), jobs=8 if ctx.quick else 16)
     for i in bad:
+        if i >= nscalar:
+            c, ij, r = mkept[i - nscalar]
+            disagreements.append(dict(what="entry %s of solve_sylvester_2nd_quant differs from the model's solve_entry: %s" % (list(ij), matrix_str(c)),
+                                      input=dict(kind="matrix", case=c), impl=r["obs"][ij[0]][ij[1]], model="check_entry = false"))
+            continue
         c, r = kept[i]
         disagreements.append(dict(what="model solve_scalar differs from the implementation: " + case_str(c), input=c, impl=r["obs"], model="check_scalar = false"))
     distinct = {core.canon([c["modes"], c["y"], c["hi"], c["hj"], c["diagonal"]]) for c, r in kept if len(r["obs"]) >= 1}
+    mdistinct = {core.canon(c) for c, _, _ in mkept if matrix_nontrivial(c)}
     return dict(
-        cases=len(kept),
-        nontrivial=len(distinct),
-        rule="distinct (modes, Y, H_ii, H_jj, diagonal) whose solution has at least one term",
+        cases=len(kept) + len({core.canon(c) for c, _, _ in mkept}),
+        nontrivial=len(distinct) + len(mdistinct),
+        rule="distinct (modes, Y, H_ii, H_jj, diagonal) whose solution has at least one term; plus distinct matrix-valued "
+        "cases whose diagonal block has two identical operator-valued levels",
         samples=[case_str(c) for c, _ in kept[:4]],
         distribution=dict(diagonal=sum(1 for c, _ in kept if c["diagonal"]), offdiagonal=sum(1 for c, _ in kept if not c["diagonal"]),
-                          terms_in_solution=sum(len(r["obs"]) for _, r in kept)),
+                          terms_in_solution=sum(len(r["obs"]) for _, r in kept), matrix_entries=len(mkept),
+                          matrix_cases_diagonal_block=len({core.canon(c) for c, _, _ in mkept if c["index"][0] == c["index"][1]}),
+                          matrix_cases_identical_levels=len(mdistinct)),
         disagreements=disagreements,
     )
 
 
 def replay_case(case):
+    """accepts a scalar case, or the failure input dict(kind="scalar"|"matrix", case=...)"""
+    if "case" in case and "kind" in case:
+        if case["kind"] == "matrix":
+            return replay_matrix(case["case"])
+        case = case["case"]
     print(case_str(case))
     r = _impl_worker(case)
     if not r["ok"]:
@@ -219,10 +251,239 @@ def oracle_scalar(ctx, ncases=None):
     with multiprocessing.Pool(8 if ctx.quick else 16) as pool:
         res = pool.map(_oracle_worker, cases, chunksize=1)
     failures = [f for r in res for f in r]
+    mcases = matrix_cases(ctx.rng, ctx.n(30, 500))
+    with multiprocessing.Pool(8 if ctx.quick else 16) as pool:
+        mres = pool.map(_matrix_oracle_worker, mcases, chunksize=1)
+    failures += [f for r in mres for f in r]
     return dict(
-        evaluations=len(cases),
-        nontrivial=len({core.canon(c) for c in cases}),
-        rule="distinct generated (modes, Y, H_ii, H_jj, diagonal); residual checked exactly on the vacuum and >= 5 basis states",
+        evaluations=len(cases) + sum(len(c["Y"]) * len(c["Y"][0]) for c in mcases),
+        nontrivial=len({core.canon(c) for c in cases}) + len({core.canon(c) for c in mcases if matrix_nontrivial(c)}),
+        rule="distinct generated (modes, Y, H_ii, H_jj, diagonal) plus distinct matrix-valued cases with two identical levels in a "
+        "diagonal block; residual checked exactly, entry by entry, on the vacuum and >= 5 basis states",
         samples=[case_str(c) for c in cases[2:5]],
         failures=failures,
     )
+
+
+# ---------------------------------------------------------------------------
+# matrix-valued right-hand sides through solve_sylvester_2nd_quant
+
+
+def rand_shift_term(rng, modes):
+    """coefficient * f(N) * (operators on distinct modes): a term whose net shift is non-zero, so that it is
+    never number conserving (number-conserving terms between identical levels are kept by the masks of
+    block_diagonalize and never reach the solver)."""
+    k = rng.randint(1, min(2, len(modes)))
+    idx = rng.sample(range(len(modes)), k)
+    t = None
+    for i in idx:
+        o = ["op", i, rng.randint(0, 1)]
+        if modes[i] in "BL" and rng.random() < 0.25:
+            o = ["pow", o, 2]
+        t = o if t is None else ["mul", t, o]
+    if rng.random() < 0.35:
+        f = nc.rand_numfun(rng, modes, 0)
+        t = ["mul", f, t] if rng.random() < 0.5 else ["mul", t, f]
+    if rng.random() < 0.6:
+        t = ["mul", nc.rand_const(rng), t]
+    return t
+
+
+def rand_entry(rng, modes, conserving_ok):
+    n = rng.randint(1, 2)
+    t = rand_shift_term(rng, modes)
+    for _ in range(n - 1):
+        t = ["add", t, rand_shift_term(rng, modes)]
+    if conserving_ok and rng.random() < 0.25:
+        t = ["add", t, nc.rand_numfun(rng, modes, 0)]
+    return t
+
+
+def gen_matrix_case(rng, force=None):
+    """eigs = blocks of operator-valued levels; Y for the block index (bi, bj)."""
+    modes = nc.rand_modes(rng, 1, 2)
+    nblocks = rng.randint(1, 2)
+    eigs = []
+    for _ in range(nblocks):
+        size = rng.choice([2, 2, 3, 1])
+        levels = [rand_h(rng, modes)]
+        for _ in range(size - 1):
+            levels.append(rng.choice(levels) if rng.random() < 0.45 else rand_h(rng, modes))
+        rng.shuffle(levels)
+        eigs.append(levels)
+    same = force if force is not None else (rng.random() < 0.6 or nblocks == 1)
+    if nblocks == 1:
+        same = True
+    bi = rng.randrange(nblocks)
+    bj = bi if same else (bi + 1) % nblocks
+    A, B = eigs[bi], eigs[bj]
+    Y = [[None] * len(B) for _ in A]
+    for i in range(len(A)):
+        for j in range(len(B)):
+            if bi == bj:
+                if i == j:
+                    w = rand_entry(rng, modes, False)
+                    Y[i][j] = ["add", w, ["adj", w]]
+                elif i > j:
+                    Y[i][j] = rand_entry(rng, modes, A[i] != B[j])
+                    Y[j][i] = ["adj", Y[i][j]]  # the right-hand side of a diagonal block is a Hermitian MATRIX
+            else:
+                Y[i][j] = rand_entry(rng, modes, A[i] != B[j])
+    return dict(modes=modes, eigs=eigs, index=[bi, bj], Y=Y, grid=nc.rand_grid(rng, modes, 4))
+
+
+MATRIX_WITNESSES = [
+    # two identical levels N + 1/4 in one block joined by a non-Hermitian element (a + a†/5 in [1,0])
+    dict(modes=["B"], eigs=[[["add", ["num", 0], ["const", "1/4", "0"]], ["add", ["num", 0], ["const", "1/4", "0"]]]], index=[0, 0],
+         Y=[[["add", ["op", 0, 0], ["op", 0, 1]], ["adj", ["add", ["op", 0, 0], ["mul", ["const", "1/5", "0"], ["op", 0, 1]]]]],
+            [["add", ["op", 0, 0], ["mul", ["const", "1/5", "0"], ["op", 0, 1]]], ["mul", ["const", "-1/2", "0"], ["add", ["op", 0, 0], ["op", 0, 1]]]]],
+         grid=[[0], [1], [2], [4]]),
+]
+
+
+def matrix_str(c):
+    m = c["modes"]
+    return "modes=%s index=%s eigs=%s Y=%s" % (
+        "".join(m), tuple(c["index"]), [[nc.tree_str(h, m) for h in blk] for blk in c["eigs"]],
+        [[nc.tree_str(e, m) for e in row] for row in c["Y"]])
+
+
+def run_impl_matrix(case):
+    """-> (X entries as NumberOrderedForms over ops, Y entries likewise, ops)"""
+    ops = nc.make_ops(case["modes"])
+    eigs = tuple(tuple(nc.to_sympy(h, ops) for h in blk) for blk in case["eigs"])
+    Ynof = [[nc.build_impl(e, ops) for e in row] for row in case["Y"]]
+    X = solve_sylvester_2nd_quant(eigs)(sympy.Matrix(Ynof), tuple(case["index"]))
+    out = []
+    for i in range(X.rows):
+        row = []
+        for j in range(X.cols):
+            x = X[i, j]
+            if not isinstance(x, nc.NumberOrderedForm):
+                x = nc.NumberOrderedForm.from_expr(sympy.sympify(x), operators=ops)
+            row.append(nc.expand_to(x, ops))
+        out.append(row)
+    return out, Ynof, ops
+
+
+def _matrix_worker(case):
+    try:
+        X, _, ops = run_impl_matrix(case)
+        return dict(ok=True, obs=[[[(list(k), v) for k, v in nc.observe(x, ops, case["grid"]).items()] for x in row] for row in X])
+    except Exception as e:  # noqa: BLE001
+        return dict(ok=False, err="%s: %s" % (type(e).__name__, str(e)[:300]))
+
+
+def coq_entry(case, i, j, obs):
+    bi, bj = case["index"]
+    same = bi == bj
+    tij = case["Y"][i][j]
+    tji = case["Y"][j][i] if same else ["const", "0", "0"]
+    return "check_entry %s %s %d %d %s %s %s %s %s %s" % (
+        nc.coq_sig(case["modes"]), "true" if same else "false", i, j, nc.coq_tree(tij), nc.coq_tree(tji),
+        coq_cexpr(case["eigs"][bi][i]), coq_cexpr(case["eigs"][bj][j]),
+        nc.clist([nc.coq_occ(p) for p in case["grid"]]), nc.coq_obs(obs))
+
+
+def matrix_terms(case, r):
+    out = []
+    for i, row in enumerate(r["obs"]):
+        for j, ob in enumerate(row):
+            obs = {tuple(k): [None if v is None else tuple(v) for v in vals] for k, vals in ob}
+            out.append(((i, j), coq_entry(case, i, j, obs)))
+    return out
+
+
+def matrix_nontrivial(case):
+    """a diagonal block with two identical levels and a non-Hermitian element between them"""
+    bi, bj = case["index"]
+    if bi != bj:
+        return False
+    lv = case["eigs"][bi]
+    return any(lv[i] == lv[j] for i in range(len(lv)) for j in range(i))
+
+
+def _act(om, actor, sp, vec):
+    out = {}
+    for st, c in vec.items():
+        r = actor.action(sp, st)
+        if r is None:
+            return None
+        for st2, c2 in r.items():
+            om.v_add_to(out, st2, om.g_mul(c, c2))
+    return om.v_clean(out)
+
+
+def matrix_residual_failures(case):
+    """entry-wise  H_A[i] X_ij - X_ij H_B[j] - Y_ij  on Fock states (exact); the right-hand sides contain no
+    number-conserving term on the matrix diagonal or between identical levels, so every entry is one that the
+    block_diagonalize wiring eliminates."""
+    import random as _r
+
+    from oracles import o_nof_matrix as om
+
+    X, Ynof, ops = run_impl_matrix(case)
+    modes = case["modes"]
+    bi, bj = case["index"]
+    rng = _r.Random(core.canon(case))
+    states = om.rand_states(rng, modes, 5)
+    fails = []
+    for i, row in enumerate(X):
+        for j, x in enumerate(row):
+            y = nc.expand_to(Ynof[i][j], ops) if isinstance(Ynof[i][j], nc.NumberOrderedForm) else nc.NumberOrderedForm.from_expr(Ynof[i][j], operators=ops)
+            Hi = nc.NumberOrderedForm.from_expr(nc.to_sympy(case["eigs"][bi][i], ops), operators=ops)
+            Hj = nc.NumberOrderedForm.from_expr(nc.to_sympy(case["eigs"][bj][j], ops), operators=ops)
+            deg = 2 + max([sum(abs(int(p)) for p in k) for k, _ in y.args[1]] + [0])
+            top = max([max([abs(v) for v in s] + [0]) for s in states] + [0]) + 2 * deg + 2
+            sp = om.Space(modes, top, top)
+            aX, aY, aHi, aHj = (om.NofActor(z, ops) for z in (x, y, Hi, Hj))
+            for st in states:
+                v0 = {tuple(st): om.G1}
+                xv, hv, yv = _act(om, aX, sp, v0), _act(om, aHj, sp, v0), _act(om, aY, sp, v0)
+                if xv is None or hv is None or yv is None:
+                    continue
+                hx, xh = _act(om, aHi, sp, xv), _act(om, aX, sp, hv)
+                if hx is None or xh is None:
+                    continue
+                res = om.v_clean(om.v_sum(om.v_sum(hx, xh, -1), yv, -1))
+                if sp.edge_hit:
+                    raise RuntimeError("truncation edge reached")
+                if res:
+                    fails.append(dict(
+                        what="solve_sylvester_2nd_quant: residual H_A[%d] X - X H_B[%d] - Y != 0 for entry [%d,%d] on state %s: %s ; %s"
+                        % (i, j, i, j, st, om.v_str(res), matrix_str(case)),
+                        input=dict(kind="matrix", case=case)))
+                    break
+            if fails:
+                return fails
+    return fails
+
+
+def _matrix_oracle_worker(case):
+    try:
+        return matrix_residual_failures(case)
+    except Exception as e:  # noqa: BLE001
+        return [dict(what="oracle_scalar (matrix) crashed on %s: %s: %s" % (matrix_str(case), type(e).__name__, str(e)[:200]),
+                     input=dict(kind="matrix", case=case), crash=True)]
+
+
+def matrix_cases(rng, n):
+    return [dict(w) for w in MATRIX_WITNESSES] + [gen_matrix_case(rng) for _ in range(n)]
+
+
+def replay_matrix(case):
+    print(matrix_str(case))
+    r = _matrix_worker(case)
+    if not r["ok"]:
+        print("implementation raised:", r["err"])
+        return True
+    ts = matrix_terms(case, r)
+    bad = core.coq_eval_cases("k_scalar_replay", COQ_HEADER, [t for _, t in ts])
+    for b in bad:
+        print("entry %s differs from the model's solve_entry" % (list(ts[b][0]),))
+    fails = matrix_residual_failures(case)
+    for f in fails:
+        print(f["what"])
+    if not bad and not fails:
+        print("model agrees, residual vanishes")
+    return bool(bad) or bool(fails)
